@@ -130,6 +130,14 @@ def run_case(case):
                               what="parallel_gradient(order %d, local r index %d = global %d of rank %d/%d, iota=%s) differs from the field-aligned FD formula by %.3g (tol %.3g) for every admissible stencil"
                               % (order, i, I, k, P, case["iota"], best[0], best[1]), witness=dict(wit0, rank=k, i=i))
             chosen = best[2]
+            # history: the same object asked again for the same radius must give the same answer (bit for bit)
+            again = np.full((nz, nth), np.nan)
+            op.parallel_gradient(phi.copy(), i, again)
+            ev["identity_checks"] += 1
+            if not np.array_equal(again, got):
+                return result(VIOL, cls=sorted(cls), events=ev, key="C13:repeated-call-differs",
+                              what="parallel_gradient called twice with the same arguments on the same object gives different results (max change %.3g), order %d, local r index %d"
+                              % (float(np.nanmax(np.abs(again - got))), order, i), witness=dict(wit0, rank=k, i=i))
             if k == 0 and i == 0:
                 # identities on the real code
                 def run(A):
